@@ -287,3 +287,64 @@ pub fn curated() -> Vec<Dataset> {
 
     out
 }
+
+/// D-tiny: every graph over at most two Item vertices with types in {A, B}, n in {null, 1, 2},
+/// every subset of the four possible `next` edges (self-loops included) and every `one`
+/// assignment (none / to vertex 0 / to vertex 1). 5184 two-vertex graphs + 36 one-vertex graphs.
+/// `s` is fixed per vertex ("a", "b") so that string filters have something to distinguish.
+pub fn tiny_family() -> Vec<Dataset> {
+    use values::{i, s};
+    let ns = [FV::Null, i(1), i(2)];
+    let tys = ["A", "B"];
+    let mut out = vec![];
+    // one vertex
+    for t in tys {
+        for n in &ns {
+            for self_next in [false, true] {
+                for self_one in [false, true] {
+                    let mut d = Dataset::new(&format!("tiny1-{t}-{}-{}{}", out.len(), self_next as u8, self_one as u8));
+                    let v = item(&mut d, t, 0, n.clone(), s("a"));
+                    if self_next {
+                        d.edge(v, "next", v);
+                    }
+                    if self_one {
+                        d.edge(v, "one", v);
+                    }
+                    out.push(d);
+                }
+            }
+        }
+    }
+    // two vertices
+    for t0 in tys {
+        for t1 in tys {
+            for n0 in &ns {
+                for n1 in &ns {
+                    for next_mask in 0u8..16 {
+                        for one0 in 0u8..3 {
+                            for one1 in 0u8..3 {
+                                let mut d = Dataset::new(&format!("tiny2-{}", out.len()));
+                                let a = item(&mut d, t0, 0, n0.clone(), s("a"));
+                                let b = item(&mut d, t1, 1, n1.clone(), s("b"));
+                                let vs = [a, b];
+                                for (bit, (f, t)) in [(0, 0), (0, 1), (1, 0), (1, 1)].iter().enumerate() {
+                                    if next_mask & (1 << bit) != 0 {
+                                        d.edge(vs[*f], "next", vs[*t]);
+                                    }
+                                }
+                                if one0 > 0 {
+                                    d.edge(a, "one", vs[(one0 - 1) as usize]);
+                                }
+                                if one1 > 0 {
+                                    d.edge(b, "one", vs[(one1 - 1) as usize]);
+                                }
+                                out.push(d);
+                            }
+                        }
+                    }
+                }
+            }
+        }
+    }
+    out
+}
